@@ -122,6 +122,10 @@ class Evaluator:
         if isinstance(e, ast.Call):
             fn = dotted(e.func) or ""
             if fn in ("copy.deepcopy", "deepcopy"):
+                # a pre-seeded memo makes the "copy" share whatever the memo maps to
+                memo = e.args[1] if len(e.args) > 1 else next((k.value for k in e.keywords if k.arg == "memo"), None)
+                if memo is not None and self.level(memo) >= SHALLOW:
+                    return SHALLOW
                 return CLEAN
             if fn in SHALLOW_CTORS:
                 m = max([self.level(a) for a in e.args] or [CLEAN])
